@@ -80,3 +80,21 @@ Proof.
     rewrite (proj2 (N.leb_gt reconnect_timeout_ms ga) Ga), (IH (el + ga) Ft G).
     fold (data_packets t). destruct (is_control p); reflexivity.
 Qed.
+
+(* the reader's own packets: a payload that starts with the tcp.pong magic is
+   consumed exactly when it is the 12-byte tcp.pong; every other length is data *)
+Theorem pong_magic_consumed_iff p :
+  magic_type p = magic_tcp_pong -> (is_control p = true <-> len p = 12).
+Proof.
+  intros M. unfold is_control. rewrite M, N.eqb_refl.
+  change (magic_tcp_pong =? magic_tcp_auth_nonce) with false. rewrite orb_false_r. cbn [andb].
+  apply N.eqb_eq.
+Qed.
+
+Theorem data_packet_delivered p g t elapsed :
+  is_control p = false -> g < reconnect_timeout_ms ->
+  fst (reader_run false elapsed (APacket g p :: t)) = p :: fst (reader_run false (elapsed + g) t).
+Proof.
+  intros C G. cbn [reader_run]. rewrite (proj2 (N.leb_gt reconnect_timeout_ms g) G), C.
+  destruct (reader_run false (elapsed + g) t). reflexivity.
+Qed.
